@@ -10,7 +10,10 @@ func vHexOrJunk(site string, max int) string {
 	if vNondetBool(site + ".validHex") {
 		return hex.EncodeToString(vNondetBytes(site, max))
 	}
-	return vNondetAtom(site + ".junk")
+	j := vNondetAtom(site + ".junk")
+	_, err := hex.DecodeString(j)
+	vAssume(err != nil) // junk = a string that is not valid hex
+	return j
 }
 
 func vHarnessDecryptKey() {
